@@ -1,15 +1,15 @@
 CONSTANTS
- Members = {"m1","m2"}
+ Members = {"m1","m2","m3"}
  Topics = {"t1","t2"}
- NParts <- NP21
+ NParts <- NP32
  SubsChoices = {{"t1"},{"t1","t2"}}
  CommitTP <- CTP
  SessChoices = {2}
  RebT = 2
  DefT = 30
  KeepT = {TRUE}
- MaxClock = 4
- MaxGen = 4
+ MaxClock = 1000
+ MaxGen = 1000
  FixSubChange = TRUE
  FixHbRefresh = TRUE
  DevHbNoGen = FALSE
@@ -18,18 +18,16 @@ CONSTANTS
  DevJoinOkEarly = FALSE
  DevAssignAllMembers = FALSE
  DevRestoreDropsAsg = FALSE
- DevRestoreGenZero = TRUE
+ DevRestoreGenZero = FALSE
  DevExpireIgnoresHb = FALSE
  DevNoLaggerDrop = FALSE
  DevNoExpire = FALSE
  DevLaggerSkippedOnExpiry = FALSE
  DevSyncRefusesIdle = FALSE
- DevHbWriteUnlocked = FALSE
- DevCleanupWriteUnlocked = FALSE
- DevSyncLookupUnlocked = FALSE
+ DevHbWriteUnlocked = TRUE
+ DevCleanupWriteUnlocked = TRUE
+ DevSyncLookupUnlocked = TRUE
 INIT Init
-NEXT Next
-PROPERTIES C15_RestoreEqual C15_NotFenced C15_KeepWorking
-CONSTRAINT GenBound
-VIEW View
+NEXT NextRace
+INVARIANTS EmitSched
 CHECK_DEADLOCK FALSE
